@@ -1,10 +1,10 @@
 package main
 
 import (
-	"go/token"
 	"fmt"
 	"go/ast"
 	"go/constant"
+	"go/token"
 	"go/types"
 	"strings"
 
@@ -149,7 +149,7 @@ func runC08(c *Ctx) {
 
 	// ---- O2: which checks each gate runs; the combinator
 	wantChecks := map[string][]string{
-		"IsJobOverQueueCapacity":            {"resultsOverLimit", "resultsWithNonPreemptibleOverQuota"},
+		"IsJobOverQueueCapacity":             {"resultsOverLimit", "resultsWithNonPreemptibleOverQuota"},
 		"IsTaskAllocationOnNodeOverCapacity": {"resultsOverLimit", "resultsWithNonPreemptibleOverQuota"},
 		"IsNonPreemptibleJobOverQuota":       {"resultsWithNonPreemptibleOverQuota"},
 	}
